@@ -324,21 +324,43 @@ class Text:
         return _map1(self, 'lower')
 
     def lstrip(self, chars=None):
-        if not _isinstance(chars, _str) or _len(chars) != 1:
+        """str.lstrip(chars) for a literal character set.  Literal pieces are stripped directly; a leading symbolic
+        piece s is split by the solver: s = p ++ r with p made of characters of the set only and r not starting with one
+        (r may be empty only if nothing but stripped text follows; then stripping continues with the next piece)."""
+        if not _isinstance(chars, _str) or not chars:
             raise Unsupported('lstrip form')
         ps = list(self.p)
         while ps:
             p = ps[0]
             if p[0] == 'lit':
-                s = p[1].lstrip(chars)
-                if s:
-                    ps[0] = ('lit', s)
+                st = p[1].lstrip(chars)
+                if st:
+                    ps[0] = ('lit', st)
                     break
                 ps.pop(0)
                 continue
-            if chars in p[2].get('nosep', '') and p[2].get('nonempty'):
+            if p[2].get('nonempty') and all(ch in p[2].get('nosep', '') for ch in chars):
                 break
-            raise Unsupported('lstrip over a symbolic piece')
+            if p[2].get('sepchar'):
+                if any(ch in '/\\' for ch in chars):
+                    raise Unsupported('lstrip of separator characters over a symbolic separator')
+                break
+            e = E()
+            cls = None
+            for ch in chars:
+                c = z3.Re(z3.StringVal(ch))
+                cls = c if cls is None else z3.Union(cls, c)
+            n = next(e.fresh)
+            pre = z3.String('ls_p!%d' % n)
+            rest = z3.String('ls_r!%d' % n)
+            e.add(p[1] == z3.Concat(pre, rest))
+            e.add(z3.InRe(pre, z3.Star(cls)))
+            e.add(z3.Or(z3.Length(rest) == 0, z3.Not(z3.InRe(z3.SubString(rest, 0, 1), cls))))
+            if bool(mkbool(z3.Length(rest) == 0)):
+                ps.pop(0)                      # the whole piece was stripped: go on with the next one
+                continue
+            ps[0] = ('sym', rest, dict(nosep=p[2].get('nosep', ''), nonempty=True))
+            break
         return mk(ps)
 
     def __getattr__(self, name):
